@@ -169,6 +169,11 @@ def _policy(ck: Checker, df: Func) -> None:
                 first = norm(tgt.elts[0]) if isinstance(tgt, (ast.Tuple, ast.List)) and tgt.elts else None
                 if only_raise and first is not None and norm(e.left) == first:
                     checked = (h, t)
+                    good_lab = "F" if bad_lab == "T" else "T"
+                    rg = g.reach([d for lab, d in t.succ if lab == good_lab], skip_node=lambda x: x.id == h.id)
+                    left = [x for x in rg if not g.nodes[x].loops or h.id not in g.nodes[x].loops]
+                    ck.require(not left, "C19.policy", df, t, "an allowed change kind continues with the next change",
+                               "after one allowed change kind the loop is left: later changes of a disallowed kind are never tested", construct=f"{t.text()} / continues")
     if checked is None:
         ck.fail("C19.policy", df, df.node, "no loop that rejects every change kind outside the allowed set with MergeError")
         return
